@@ -93,6 +93,8 @@ def run(chk):
                f"may panic while proxying: {s.kind} {s.what} ({why or 'no discharge idiom applies'})" if how is None else f"{how}: {why}", where=s.where())
     chk.floor("panic sites on the proxy call graph", n, 8)
     chk.extra["proxy_call_graph_bodies"] = len(bodies)
+    from . import shared
+    shared.response_reads(chk, prog, "R1.exact_reads")
     # ---- R2 bounded wait
     conn = [blk for blk, t in bi.calls_to(r"TcpStream::connect_timeout$")]
     plain = [blk for blk, t in bi.calls_to(r"TcpStream::connect$")]
